@@ -1,4 +1,4 @@
-/- GENERATED on every run by vlib/srcobj.py from the typed clang AST of /repo/src/encoder.cpp — do not edit. -/
+/- GENERATED on every run by vlib/srcobj.py from the typed clang AST of /repo/src/encoder.cpp, packet.cpp and decoder.cpp — do not edit. -/
 import AsamCmp.GeneratedSrc
 import AsamCmp.Src.Obj
 set_option linter.unusedVariables false
@@ -49,9 +49,9 @@ def Encoder_createCmpFrameTemplate_obj (s : Encoder_St) (a_packet : PktIn) : Opt
 
 /-- `ASAM::CMP::Encoder::addNewCMPFrame` -/
 def Encoder_addNewCMPFrame_obj (s : Encoder_St) (a_packet : PktIn) : Option (Encoder_St × Unit) := do
-  let (s, _) ← Encoder_closeLastFrame_obj s 
+  let (s, _) ← Encoder_closeLastFrame_obj s  
   let (s) ← (if (s.f_cmpFrameTemplate).isEmpty then (do
-      let (s, _) ← Encoder_createCmpFrameTemplate_obj s a_packet
+      let (s, _) ← Encoder_createCmpFrameTemplate_obj s a_packet 
       pure (s))
     else (do
       pure (s)))
@@ -98,7 +98,7 @@ def Encoder_buildSegmentationFlag_obj (s : Encoder_St) (a_isSegmented : Bool) (a
 def Encoder_checkIfSegmented_obj (s : Encoder_St) (a_packet : PktIn) : Option (Encoder_St × Bool) := do
   let v_isSegmented := ((!(s.f_cmpFrames).isEmpty) && (decide (s.f_bytesLeft < (uadd 64 16 a_packet.payloadLength))))
   let (s, v_isSegmented) ← (if v_isSegmented then (do
-      let (s, _) ← Encoder_addNewCMPFrame_obj s a_packet
+      let (s, _) ← Encoder_addNewCMPFrame_obj s a_packet 
       let v_isSegmented := ((!(s.f_cmpFrames).isEmpty) && (decide (s.f_bytesLeft < (uadd 64 16 a_packet.payloadLength))))
       pure (s, v_isSegmented))
     else (do
@@ -119,7 +119,7 @@ def Encoder_clearEncodingMetadata_obj (s : Encoder_St) (a_clearSequenceCounter :
 
 /-- `ASAM::CMP::Encoder::init` -/
 def Encoder_init_obj (s : Encoder_St) (a_dataContext_minBytesPerMessage : Nat) (a_dataContext_maxBytesPerMessage : Nat) : Option (Encoder_St × Unit) := do
-  let (s, _) ← Encoder_clearEncodingMetadata_obj s false
+  let (s, _) ← Encoder_clearEncodingMetadata_obj s false 
   let s := { s with f_minBytesPerMessage := a_dataContext_minBytesPerMessage }
   let s := { s with f_maxBytesPerMessage := a_dataContext_maxBytesPerMessage }
   pure (s, ())
@@ -128,7 +128,7 @@ def Encoder_init_obj (s : Encoder_St) (a_dataContext_minBytesPerMessage : Nat) (
 def Encoder_setMessageType_obj (s : Encoder_St) (a_packet : PktIn) : Option (Encoder_St × Unit) := do
   let s := { s with f_messageType := a_packet.messageType }
   let s := { s with f_cmpFrameTemplate := [] }
-  let (s, _) ← Encoder_addNewCMPFrame_obj s a_packet
+  let (s, _) ← Encoder_addNewCMPFrame_obj s a_packet 
   pure (s, ())
 
 def Encoder_putPacket_loop1 (fuel : Nat) (s : Encoder_St) (a_packet : PktIn) (v_currentPayloadPos : Nat) (v_isSegmented : Bool) (v_segmentInd : Nat) : Option (Encoder_St × Nat × Nat) :=
@@ -137,14 +137,14 @@ def Encoder_putPacket_loop1 (fuel : Nat) (s : Encoder_St) (a_packet : PktIn) (v_
   | fuel + 1 => do
     if (decide (v_currentPayloadPos < a_packet.payloadLength)) then
       let (s) ← (if (decide (s.f_bytesLeft < 16)) then (do
-          let (s, _) ← Encoder_addNewCMPFrame_obj s a_packet
+          let (s, _) ← Encoder_addNewCMPFrame_obj s a_packet 
           pure (s))
         else (do
           pure (s)))
       let v_bytesToAdd := ((Nat.min (usub 64 s.f_bytesLeft 16) (usub 64 a_packet.payloadLength v_currentPayloadPos)) % 65536)
-      let (s, t2) ← Encoder_buildSegmentationFlag_obj s v_isSegmented v_segmentInd v_bytesToAdd a_packet.payloadLength v_currentPayloadPos
+      let (s, t2) ← Encoder_buildSegmentationFlag_obj s v_isSegmented v_segmentInd v_bytesToAdd a_packet.payloadLength v_currentPayloadPos 
       let v_isSegmentedFlag := t2
-      let (s, _) ← Encoder_addNewDataHeader_obj s a_packet v_bytesToAdd v_isSegmentedFlag
+      let (s, _) ← Encoder_addNewDataHeader_obj s a_packet v_bytesToAdd v_isSegmentedFlag 
       let _ ← nonEmpty s.f_cmpFrames
       let _ ← nonEmpty s.f_cmpFrames
       let _ ← nonEmpty s.f_cmpFrames
@@ -155,7 +155,7 @@ def Encoder_putPacket_loop1 (fuel : Nat) (s : Encoder_St) (a_packet : PktIn) (v_
       let v_currentPayloadPos := (uadd 64 v_currentPayloadPos v_bytesToAdd)
       let s := { s with f_bytesLeft := (usub 64 s.f_bytesLeft v_bytesToAdd) }
       let (s) ← (if (v_isSegmentedFlag == 12) then (do
-          let (s, _) ← Encoder_addNewCMPFrame_obj s a_packet
+          let (s, _) ← Encoder_addNewCMPFrame_obj s a_packet 
           pure (s))
         else (do
           pure (s)))
@@ -166,12 +166,12 @@ def Encoder_putPacket_loop1 (fuel : Nat) (s : Encoder_St) (a_packet : PktIn) (v_
 /-- `ASAM::CMP::Encoder::putPacket` -/
 def Encoder_putPacket_obj (fuel : Nat) (s : Encoder_St) (a_packet : PktIn) : Option (Encoder_St × Unit) := do
   let (s) ← (if ((s.f_cmpFrames).isEmpty || (s.f_messageType != a_packet.messageType)) then (do
-      let (s, _) ← Encoder_setMessageType_obj s a_packet
+      let (s, _) ← Encoder_setMessageType_obj s a_packet 
       pure (s))
     else (do
       pure (s)))
   let v_currentPayloadPos := 0
-  let (s, t1) ← Encoder_checkIfSegmented_obj s a_packet
+  let (s, t1) ← Encoder_checkIfSegmented_obj s a_packet 
   let v_isSegmented := t1
   let v_segmentInd := 0
   let (s, v_currentPayloadPos, v_segmentInd) ← Encoder_putPacket_loop1 fuel s a_packet v_currentPayloadPos v_isSegmented v_segmentInd
@@ -179,17 +179,17 @@ def Encoder_putPacket_obj (fuel : Nat) (s : Encoder_St) (a_packet : PktIn) : Opt
 
 /-- `ASAM::CMP::Encoder::getEncodedData` -/
 def Encoder_getEncodedData_obj (s : Encoder_St)  : Option (Encoder_St × List Bytes) := do
-  let (s, _) ← Encoder_closeLastFrame_obj s 
+  let (s, _) ← Encoder_closeLastFrame_obj s  
   let v_frames := s.f_cmpFrames
   let s := { s with f_cmpFrames := [] }
-  let (s, _) ← Encoder_clearEncodingMetadata_obj s false
+  let (s, _) ← Encoder_clearEncodingMetadata_obj s false 
   pure (s, v_frames)
 
 /-- `ASAM::CMP::Encoder::encode` -/
 def Encoder_encode_obj (fuel : Nat) (s : Encoder_St) (a_packet : PktIn) (a_dataContext_minBytesPerMessage : Nat) (a_dataContext_maxBytesPerMessage : Nat) : Option (Encoder_St × List Bytes) := do
-  let (s, _) ← Encoder_init_obj s a_dataContext_minBytesPerMessage a_dataContext_maxBytesPerMessage
-  let (s, _) ← Encoder_putPacket_obj fuel s a_packet
-  let (s, t1) ← Encoder_getEncodedData_obj s 
+  let (s, _) ← Encoder_init_obj s a_dataContext_minBytesPerMessage a_dataContext_maxBytesPerMessage 
+  let (s, _) ← Encoder_putPacket_obj fuel s a_packet 
+  let (s, t1) ← Encoder_getEncodedData_obj s  
   pure (s, t1)
 
 /-- `ASAM::CMP::Encoder::getDeviceId` -/
@@ -212,15 +212,252 @@ def Encoder_restart_obj (s : Encoder_St)  : Option (Encoder_St × Unit) := do
 /-- `ASAM::CMP::Encoder::setDeviceId` -/
 def Encoder_setDeviceId_obj (s : Encoder_St) (a_newDeviceId : Nat) : Option (Encoder_St × Unit) := do
   let s := { s with f_deviceId := a_newDeviceId }
-  let (s, _) ← Encoder_clearEncodingMetadata_obj s true
+  let (s, _) ← Encoder_clearEncodingMetadata_obj s true 
   pure (s, ())
 
 /-- `ASAM::CMP::Encoder::setStreamId` -/
 def Encoder_setStreamId_obj (s : Encoder_St) (a_newStreamId : Nat) : Option (Encoder_St × Unit) := do
   let s := { s with f_streamId := a_newStreamId }
-  let (s, _) ← Encoder_clearEncodingMetadata_obj s true
+  let (s, _) ← Encoder_clearEncodingMetadata_obj s true 
   pure (s, ())
 
 def Encoder_untranslated : List (String × String) := [("ASAM::CMP::Encoder::encode", "type ForwardPtrIterator")]
+
+/-- state of `ASAM::CMP::Packet`: one field per data member -/
+structure Packet_St where
+  f_version : Nat
+  f_deviceId : Nat
+  f_streamId : Nat
+  f_sequenceCounter : Nat
+  f_timestamp : Nat
+  f_interfaceId : Nat
+  f_vendorId : Nat
+  f_commonFlags : Nat
+  f_segmentType : Nat
+deriving Repr, Inhabited
+
+/-- `ASAM::CMP::Packet::getCommonFlag` -/
+def Packet_getCommonFlag_obj (s : Packet_St) (a_mask : Nat) : Option (Packet_St × Bool) := do
+  pure (s, ((s.f_commonFlags &&& a_mask) != 0))
+
+/-- `ASAM::CMP::Packet::getCommonFlags` -/
+def Packet_getCommonFlags_obj (s : Packet_St)  : Option (Packet_St × Nat) := do
+  pure (s, s.f_commonFlags)
+
+/-- `ASAM::CMP::Packet::getDeviceId` -/
+def Packet_getDeviceId_obj (s : Packet_St)  : Option (Packet_St × Nat) := do
+  pure (s, s.f_deviceId)
+
+/-- `ASAM::CMP::Packet::getInterfaceId` -/
+def Packet_getInterfaceId_obj (s : Packet_St)  : Option (Packet_St × Nat) := do
+  pure (s, s.f_interfaceId)
+
+/-- `ASAM::CMP::Packet::getVersion` -/
+def Packet_getVersion_obj (s : Packet_St)  : Option (Packet_St × Nat) := do
+  pure (s, s.f_version)
+
+/-- `ASAM::CMP::Packet::getStreamId` -/
+def Packet_getStreamId_obj (s : Packet_St)  : Option (Packet_St × Nat) := do
+  pure (s, s.f_streamId)
+
+/-- `ASAM::CMP::Packet::getSequenceCounter` -/
+def Packet_getSequenceCounter_obj (s : Packet_St)  : Option (Packet_St × Nat) := do
+  pure (s, s.f_sequenceCounter)
+
+/-- `ASAM::CMP::Packet::getRawCmpHeader` -/
+def Packet_getRawCmpHeader_obj (s : Packet_St) (g_getMessageType : Nat) : Option (Packet_St × Bytes) := do
+  let out_ := ([] : Bytes)
+  let v_header := ([1, 0, 0, 0, 0, 0, 0, 0] : Bytes)
+  let (s, t1) ← Packet_getVersion_obj s  
+  let v_header ← CmpHeader_setVersion v_header 0 t1
+  let (s, t2) ← Packet_getDeviceId_obj s  
+  let v_header ← CmpHeader_setDeviceId v_header 0 t2
+  let v_header ← CmpHeader_setMessageType v_header 0 g_getMessageType
+  let (s, t3) ← Packet_getStreamId_obj s  
+  let v_header ← CmpHeader_setStreamId v_header 0 t3
+  let (s, t4) ← Packet_getSequenceCounter_obj s  
+  let v_header ← CmpHeader_setSequenceCounter v_header 0 t4
+  let out_ ← takeExact v_header 8
+  pure (s, out_)
+
+/-- `ASAM::CMP::Packet::getTimestamp` -/
+def Packet_getTimestamp_obj (s : Packet_St)  : Option (Packet_St × Nat) := do
+  pure (s, s.f_timestamp)
+
+/-- `ASAM::CMP::Packet::getVendorId` -/
+def Packet_getVendorId_obj (s : Packet_St)  : Option (Packet_St × Nat) := do
+  pure (s, s.f_vendorId)
+
+/-- `ASAM::CMP::Packet::getRawMessageHeader` -/
+def Packet_getRawMessageHeader_obj (s : Packet_St) (g_getMessageType : Nat) (g_getPayloadType : Nat) (g_getPayloadLength : Nat) : Option (Packet_St × Bytes) := do
+  let out_ := ([] : Bytes)
+  let v_header := ([0, 0, 0, 0, 0, 0, 0, 0, 0, 0, 0, 0, 0, 0, 0, 0] : Bytes)
+  let (s, t1) ← Packet_getTimestamp_obj s  
+  let v_header ← MessageHeader_setTimestamp v_header 0 t1
+  let v_messageType := g_getMessageType
+  let sw2 := v_messageType
+  if sw2 == 1 then
+    let (s, t3) ← Packet_getInterfaceId_obj s  
+    let v_header ← MessageHeader_setInterfaceId v_header 0 t3
+    let (s, t4) ← Packet_getCommonFlags_obj s  
+    let v_header ← MessageHeader_setCommonFlags v_header 0 t4
+    let v_header ← MessageHeader_setPayloadType v_header 0 g_getPayloadType
+    let v_header ← MessageHeader_setPayloadLength v_header 0 g_getPayloadLength
+    let out_ ← takeExact v_header 16
+    pure (s, out_)
+  else if sw2 == 3 || sw2 == 255 then
+    let (s, t5) ← Packet_getVendorId_obj s  
+    let v_header ← MessageHeader_setVendorId v_header 0 t5
+    let (s, t6) ← Packet_getCommonFlags_obj s  
+    let v_header ← MessageHeader_setCommonFlags v_header 0 t6
+    let v_header ← MessageHeader_setPayloadType v_header 0 g_getPayloadType
+    let v_header ← MessageHeader_setPayloadLength v_header 0 g_getPayloadLength
+    let out_ ← takeExact v_header 16
+    pure (s, out_)
+  else if sw2 == 2 then
+    let (s, t7) ← Packet_getCommonFlags_obj s  
+    let v_header ← MessageHeader_setCommonFlags v_header 0 t7
+    let v_header ← MessageHeader_setPayloadType v_header 0 g_getPayloadType
+    let v_header ← MessageHeader_setPayloadLength v_header 0 g_getPayloadLength
+    let out_ ← takeExact v_header 16
+    pure (s, out_)
+  else
+    let (s, t7) ← Packet_getCommonFlags_obj s  
+    let v_header ← MessageHeader_setCommonFlags v_header 0 t7
+    let v_header ← MessageHeader_setPayloadType v_header 0 g_getPayloadType
+    let v_header ← MessageHeader_setPayloadLength v_header 0 g_getPayloadLength
+    let out_ ← takeExact v_header 16
+    pure (s, out_)
+
+/-- `ASAM::CMP::Packet::getSegmentType` -/
+def Packet_getSegmentType_obj (s : Packet_St)  : Option (Packet_St × Nat) := do
+  pure (s, s.f_segmentType)
+
+/-- `ASAM::CMP::Packet::isValidPacket` -/
+def Packet_isValidPacket_obj (s : Packet_St) (m : Bytes) (a_data : Nat) (a_size : Nat) : Option (Packet_St × Bool) := do
+  let v_header := a_data
+  let t2 ← (if (decide (a_size ≥ 16)) then (do let t1 ← MessageHeader_getPayloadLength m v_header; pure (decide (t1 ≤ (usub 64 a_size 16)))) else pure false)
+  let t4 ← (if t2 then (do let t3 ← MessageHeader_getCommonFlag m v_header 64; pure (!t3)) else pure false)
+  let t6 ← (if t4 then (do let t5 ← MessageHeader_getPayloadType m v_header; pure (t5 != 0)) else pure false)
+  pure (s, t6)
+
+/-- `ASAM::CMP::Packet::setCommonFlag` -/
+def Packet_setCommonFlag_obj (s : Packet_St) (a_mask : Nat) (a_value : Bool) : Option (Packet_St × Unit) := do
+  let s := { s with f_commonFlags := ((if a_value then (s.f_commonFlags ||| a_mask) else (s.f_commonFlags &&& (bnot 32 a_mask))) % 256) }
+  pure (s, ())
+
+/-- `ASAM::CMP::Packet::setCommonFlags` -/
+def Packet_setCommonFlags_obj (s : Packet_St) (a_flags : Nat) : Option (Packet_St × Unit) := do
+  let s := { s with f_commonFlags := a_flags }
+  pure (s, ())
+
+/-- `ASAM::CMP::Packet::setDeviceId` -/
+def Packet_setDeviceId_obj (s : Packet_St) (a_value : Nat) : Option (Packet_St × Unit) := do
+  let s := { s with f_deviceId := a_value }
+  pure (s, ())
+
+/-- `ASAM::CMP::Packet::setInterfaceId` -/
+def Packet_setInterfaceId_obj (s : Packet_St) (a_id : Nat) : Option (Packet_St × Unit) := do
+  let s := { s with f_interfaceId := a_id }
+  pure (s, ())
+
+/-- `ASAM::CMP::Packet::setSegmentType` -/
+def Packet_setSegmentType_obj (s : Packet_St) (a_type : Nat) : Option (Packet_St × Unit) := do
+  let s := { s with f_segmentType := a_type }
+  pure (s, ())
+
+/-- `ASAM::CMP::Packet::setSequenceCounter` -/
+def Packet_setSequenceCounter_obj (s : Packet_St) (a_counter : Nat) : Option (Packet_St × Unit) := do
+  let s := { s with f_sequenceCounter := a_counter }
+  pure (s, ())
+
+/-- `ASAM::CMP::Packet::setStreamId` -/
+def Packet_setStreamId_obj (s : Packet_St) (a_value : Nat) : Option (Packet_St × Unit) := do
+  let s := { s with f_streamId := a_value }
+  pure (s, ())
+
+/-- `ASAM::CMP::Packet::setTimestamp` -/
+def Packet_setTimestamp_obj (s : Packet_St) (a_newTimestamp : Nat) : Option (Packet_St × Unit) := do
+  let s := { s with f_timestamp := a_newTimestamp }
+  pure (s, ())
+
+/-- `ASAM::CMP::Packet::setVendorId` -/
+def Packet_setVendorId_obj (s : Packet_St) (a_id : Nat) : Option (Packet_St × Unit) := do
+  let s := { s with f_vendorId := a_id }
+  pure (s, ())
+
+/-- `ASAM::CMP::Packet::setVersion` -/
+def Packet_setVersion_obj (s : Packet_St) (a_value : Nat) : Option (Packet_St × Unit) := do
+  let s := { s with f_version := a_value }
+  pure (s, ())
+
+def Packet_untranslated : List (String × String) := [("ASAM::CMP::Packet::create", "type std::unique_ptr<Payload>"), ("ASAM::CMP::Packet::getMessageType", "overloaded operator"), ("ASAM::CMP::Packet::getPayload", "reference type const ASAM::CMP::Payload &"), ("ASAM::CMP::Packet::getPayloadLength", "UserDefinedConversion"), ("ASAM::CMP::Packet::getPayloadType", "overloaded operator"), ("ASAM::CMP::Packet::isValid", "UserDefinedConversion"), ("ASAM::CMP::Packet::operator=", "reference type ASAM::CMP::Packet &"), ("ASAM::CMP::Packet::setMessageHeader", "type ASAM::CMP::MessageHeader"), ("ASAM::CMP::Packet::setPayload", "type std::vector<uint8_t>")]
+
+/-- state of `ASAM::CMP::Decoder::SegmentedPacket`: one field per data member -/
+structure Decoder_SegmentedPacket_St where
+  f_payload : Bytes
+  f_segmentType : Nat
+  f_curVersion : Nat
+  f_curMessageType : Nat
+  f_curSegment : Nat
+deriving Repr, Inhabited
+
+/-- `ASAM::CMP::Decoder::SegmentedPacket::isValidSegmentType` -/
+def Decoder_SegmentedPacket_isValidSegmentType_obj (s : Decoder_SegmentedPacket_St) (a_type : Nat) : Option (Decoder_SegmentedPacket_St × Bool) := do
+  let sw1 := s.f_segmentType
+  if sw1 == 0 || sw1 == 12 then
+    pure (s, ((a_type == 0) || (a_type == 4)))
+  else if sw1 == 4 || sw1 == 8 then
+    pure (s, ((a_type == 8) || (a_type == 12)))
+  else
+    pure (s, false)
+
+/-- `ASAM::CMP::Decoder::SegmentedPacket::addSegment` -/
+def Decoder_SegmentedPacket_addSegment_obj (s : Decoder_SegmentedPacket_St) (m : Bytes) (a_data : Nat) (a_size : Nat) (a_version : Nat) (a_messageType : Nat) (a_sequenceCounter : Nat) : Option (Decoder_SegmentedPacket_St × Bool) := do
+  let t2 ← (if ((s.f_curVersion != a_version) || (s.f_curMessageType != a_messageType)) then pure true else (do let t1 ← sadd 32 s.f_curSegment 1; pure (a_sequenceCounter != (t1 % 65536))))
+  if t2 then
+    pure (s, false)
+  else
+    let v_header := a_data
+    let t3 ← MessageHeader_getPayloadLength m v_header
+    let v_newPayloadSize := t3
+    if (decide (v_newPayloadSize > (usub 64 a_size 16))) then
+      pure (s, false)
+    else
+      let t4 ← MessageHeader_getSegmentType m v_header
+      let v_type := t4
+      let (s, t5) ← Decoder_SegmentedPacket_isValidSegmentType_obj s v_type 
+      if (!t5) then
+        pure (s, false)
+      else
+        let v_curPayloadSize := (s.f_payload).length
+        let s := { s with f_payload := resize s.f_payload (uadd 64 v_curPayloadSize v_newPayloadSize) }
+        let t6 ← wrBytes s.f_payload (0 + v_curPayloadSize) (m.drop (a_data + 16)) v_newPayloadSize
+        let s := { s with f_payload := t6 }
+        let t7 ← MessageHeader_setPayloadLength s.f_payload 0 ((usub 64 ((s.f_payload).length % 65536) 16) % 65536)
+        let s := { s with f_payload := t7 }
+        let s := { s with f_curSegment := ((s.f_curSegment + 1) % 65536) }
+        let s := { s with f_segmentType := v_type }
+        pure (s, true)
+
+/-- `ASAM::CMP::Decoder::SegmentedPacket::isAssembled` -/
+def Decoder_SegmentedPacket_isAssembled_obj (s : Decoder_SegmentedPacket_St)  : Option (Decoder_SegmentedPacket_St × Bool) := do
+  pure (s, (s.f_segmentType == 12))
+
+/-- `ASAM::CMP::Decoder::SegmentedPacket::SegmentedPacket` -/
+def Decoder_SegmentedPacket_SegmentedPacket_ctor_obj (s : Decoder_SegmentedPacket_St) (m : Bytes) (a_data : Nat) (a_size : Nat) (a_version : Nat) (a_messageType : Nat) (a_sequenceCounter : Nat) : Option (Decoder_SegmentedPacket_St × Unit) := do
+  let s := { s with f_payload := [] }
+  let s := { s with f_segmentType := 4 }
+  let s := { s with f_curVersion := a_version }
+  let s := { s with f_curMessageType := a_messageType }
+  let s := { s with f_curSegment := a_sequenceCounter }
+  let t1 ← MessageHeader_getPayloadLength m a_data
+  let v_segmentSize := (Nat.min a_size (uadd 64 16 t1))
+  let s := { s with f_payload := resize s.f_payload v_segmentSize }
+  let t2 ← wrBytes s.f_payload 0 (m.drop a_data) v_segmentSize
+  let s := { s with f_payload := t2 }
+  pure (s, ())
+
+def Decoder_SegmentedPacket_untranslated : List (String × String) := [("ASAM::CMP::Decoder::SegmentedPacket::getHeader", "vector member used as a scalar lvalue"), ("ASAM::CMP::Decoder::SegmentedPacket::getPacket", "type std::shared_ptr<Packet>"), ("ASAM::CMP::Decoder::SegmentedPacket::operator=", "reference type ASAM::CMP::Decoder::SegmentedPacket &")]
 
 end AsamCmp.SrcGen
